@@ -22,10 +22,22 @@ def gen_case(rng, idx, quick=True):
     kinds = rng.sample(KINDS, ncols)
     if idx < len(KINDS):
         kinds = [KINDS[idx]] + kinds[1:]
+    # directed lattice: every time kind x every has_nulls mode, with missing instants present
+    TIME = ["dt_s", "dt_ms", "dt_us", "dt_ns", "td"]
+    forced_hn = None
+    forced_pat = None
+    if len(KINDS) <= idx < len(KINDS) + 3 * len(TIME):
+        t = idx - len(KINDS)
+        kinds = [TIME[t % len(TIME)]] + [k for k in kinds[1:] if k != TIME[t % len(TIME)]]
+        forced_hn = [True, False, "infer"][t // len(TIME)]
+        forced_pat = "some"
+        n = max(n, 7)
     pats = {}
     df = pd.DataFrame({"rid": np.arange(n, dtype="int64")})
     for j, k in enumerate(kinds):
         pats[k] = rng.choice(["none", "some", "some", "all", "first", "last"])
+        if forced_pat and j == 0:
+            pats[k] = forced_pat
         col = gen_column(rng, k, n, pats[k])
         name = f"c{j}_{k}"
         df[name] = col.values if not hasattr(col.dtype, "numpy_dtype") and not isinstance(col.dtype, (pd.CategoricalDtype, pd.DatetimeTZDtype)) else col
@@ -41,6 +53,8 @@ def gen_case(rng, idx, quick=True):
     elif r < 0.5:
         opts["row_group_offsets"] = rng.choice([1, 3, 8, 50, 10000])
     hn = rng.choice([None, None, True, False, "infer", "list"])
+    if forced_hn is not None:
+        hn = forced_hn
     # has_nulls=False is only legal when no column that cannot express a missing value has one
     nullable_free = all(pats[k] == "none" or k in ("float32", "float64", "float_nan", "dt_ns", "dt_us", "dt_ms", "dt_s", "dt_tz", "td") for k in kinds)
     if hn == "list":
